@@ -83,7 +83,9 @@ func runAcceptSeq(seq []string) (trace string, wall time.Duration, err error) {
 		case 'T':
 			// temporary errors as they occur in practice: not timeouts (EMFILE, ENFILE: syscall.Errno.Temporary), and a temporary timeout
 			tempErrs := []error{nil, &net.OpError{Op: "accept", Net: "tcp", Err: os.NewSyscallError("accept", syscall.EMFILE)},
-				&net.OpError{Op: "accept", Net: "tcp", Err: os.NewSyscallError("accept", syscall.ENFILE)}, rec.TempTimeoutErr{}}
+				&net.OpError{Op: "accept", Net: "tcp", Err: os.NewSyscallError("accept", syscall.ENFILE)}, rec.TempTimeoutErr{},
+				// temporary by net.OpError's own rule for accept (golang.org/issue/6163), although the errno alone says otherwise
+				&net.OpError{Op: "accept", Net: "tcp", Err: syscall.ECONNABORTED}, &net.OpError{Op: "accept", Net: "tcp", Err: syscall.ECONNRESET}}
 			l.Push(rec.AcceptStep{Temporary: true, Err: tempErrs[(i+len(seq))%len(tempErrs)]})
 		case 'P':
 			// permanent errors of several shapes, none of them caused by Shutdown (which is not called in these sequences)
